@@ -18,7 +18,20 @@ RULE = ("scalars, flat and nested maps and lists (list-valued and empty-string e
         "accepted by the model; distinct by hash")
 
 
+MALFORMED = [
+    {"out": {"$decode": 5, "$value": "1"}}, {"out": {"$decode": "json", "$value": "1", "extra": 1}}, {"out": {"$decode": "json"}},
+    {"out": {"$decode": "json", "$value": 5}}, {"out": {"$value": 1, "extra": 2}}, {"out": {"$value": {"a": 1}}}, {"out": {"$value": None}},
+    {"out": [1, {"$encode": "json", "extra": 1}]}, {"out": [1, {"$encode": "json"}, {"$encode": "yaml"}]}, {"out": [{"$encode": 5}]},
+    {"out": {"$encode": "json", "$value": {"$encode": "base64", "$value": "x"}}}, {"out": {"$decode": "yaml", "$value": "a: [1, 2]"}},
+    {"out": {"$decode": ["json"], "$value": "1"}}, {"out": {"$encode": [], "a": 1}}, {"out": {"$encode": ["json", 5], "a": 1}},
+]
+
+
 def gen_case(rng):
+    if rng.chance(1, 12):
+        c = ["history", None, hist.stream_history([rng.pick(MALFORMED)])]
+        c.append({"kind": "malformed"})
+        return c
     if rng.chance(1, 4):
         return gen_decode(rng)
     doc, subj, spec = evalgen.encode_doc(rng)
@@ -141,7 +154,7 @@ def nontrivial(c, a, b):
 
 def dist_fn(dist, c, a, b):
     m = c[3] if len(c) > 3 else {}
-    kind = "decode" if ("decode_of" in m or "text" in m) else "encode"
+    kind = "malformed" if m.get("kind") == "malformed" else ("decode" if ("decode_of" in m or "text" in m) else "encode")
     if isinstance(b, list) and b and b[-1][0] == "out":
         r = b[-1][1]
         k = kind + ("_ok" if r[0] == "ok" else "_err_" + r[1])
